@@ -4,8 +4,14 @@ package kernel
 
 import (
 	"fmt"
+	"os"
 	"strings"
 	"testing"
+	"time"
+
+	"github.com/MixinNetwork/mixin/common"
+	"github.com/MixinNetwork/mixin/config"
+	"github.com/MixinNetwork/mixin/crypto"
 
 	"pgregory.net/rapid"
 	kit "verifkit"
@@ -147,6 +153,137 @@ func TestVP_C21_consensus_marker(t *testing.T) {
 			}
 			c.Case(fmt.Sprint(vpCWDescribe(steps), *cut), nt, cl...)
 			c.Sample(map[string]any{"workload": vpCWDescribe(steps), "cut": fmt.Sprintf("%+v", *cut), "crash_at": out.CrashAt, "consensus_written_before": out.ConsBefore})
+		}
+	})
+}
+
+// Mint snapshots are consensus-class too, but a mint only validates with a
+// day of aggregated node works behind it, which the crash workloads do not
+// build. The bookkeeping property is about what happens AFTER a consensus
+// snapshot is durably finalized, so this unit finalizes mint snapshots the way
+// the finalization path does after validation (lock + body, TopoWrite, then
+// reloadConsensusState), cuts between those two calls or after them, restarts,
+// and demands that the restarted node records the mint as the last consensus
+// operation. Ordinary snapshots of other chains before the mint make the mint
+// the last snapshot or not; a foreign snapshot written between the mint's
+// TopoWrite and its marker is the known finding C21-F5 and is not generated.
+func TestVP_C21_mint_marker(t *testing.T) {
+	c := kit.New(t, "C21", "rapid: 1..3 universal mint snapshots (batches increasing by 1..3, each referencing the recorded last consensus operation) finalized on drawn genesis chains through lock+persist, TopoWrite and reloadConsensusState, interleaved with ordinary deposit snapshots of other chains delivered through the finalization path; the process is cut after a drawn mint's TopoWrite (before its marker write) or after the marker write, optionally restarted in between mints; oracle: after every restart ReadLastConsensusSnapshot is the latest mint whose TopoWrite returned (or later) and node.LastMint is its batch; non-trivial = cut between TopoWrite and the marker write; distinct by (mint count, cut position, interleaving)")
+	c.Require("cut-before-marker", "cut-after-marker", "second-mint", "ordinary-before-mint")
+	kit.SetChecks(kit.N(12, 400))
+	net := vpKNewNet(7, "c21m", 2)
+	rapid.Check(t, func(t *rapid.T) {
+		dir := vpKTempDir("c21m")
+		defer os.RemoveAll(dir)
+		k, err := vpKStart(net, dir, 0, nil)
+		if err != nil {
+			t.Fatalf("start: %v", err)
+		}
+		defer func() { k.Stop() }()
+		clk := vpCWBase(net)
+		seq := 0
+		nmint := rapid.IntRange(1, 3).Draw(t, "mints")
+		cutAt := rapid.IntRange(0, nmint-1).Draw(t, "cut_mint")
+		cutBefore := rapid.Bool().Draw(t, "cut_before_marker")
+		batch := uint64(KernelNetworkLegacyEnding)
+		var lastMint *common.Snapshot
+		restart := func(why string) {
+			k.Stop()
+			k2, err := vpKStart(net, dir, 0, nil)
+			if err != nil {
+				t.Fatalf("restart (%s): %v", why, err)
+			}
+			k = k2
+			last, err := k.Node.persistStore.ReadLastConsensusSnapshot()
+			if err != nil || last == nil {
+				t.Fatalf("restart (%s): no consensus snapshot: %v", why, err)
+			}
+			if lastMint != nil && last.Timestamp < lastMint.Timestamp {
+				t.Fatalf("restart (%s): mint snapshot %s (batch %d, ts %d) was durably finalized, the restarted node records last consensus ts %d", why, lastMint.Hash, batch, lastMint.Timestamp, last.Timestamp)
+			}
+			if lastMint != nil && k.Node.LastMint != batch {
+				t.Fatalf("restart (%s): LastMint %d, finalized batch %d", why, k.Node.LastMint, batch)
+			}
+		}
+		for mi := 0; mi < nmint; mi++ {
+			// ordinary traffic on other chains first
+			for j := rapid.IntRange(0, 2).Draw(t, "ordinary"); j > 0; j-- {
+				seq++
+				clk += uint64(rapid.IntRange(1, 400).Draw(t, "dt_ms")) * uint64(time.Millisecond)
+				tx := net.BTCDeposit(common.NewInteger(1), 0, fmt.Sprintf("0xc21m-%d", seq), seq)
+				ci := 1 + rapid.IntRange(0, 5).Draw(t, "ord_chain")
+				chain := k.Node.getOrCreateChain(net.NodeIds[ci])
+				newRound := false
+				if cache := chain.State.CacheRound; len(cache.Snapshots) > 0 {
+					start, _ := cache.Gap()
+					newRound = clk >= start+config.SnapshotRoundGap
+				}
+				s := k.NextSnapshot(ci, []crypto.Hash{tx.PayloadHash()}, clk, newRound, (ci+1)%7)
+				k.Certify(s, 0)
+				if fin, err := k.Deliver(s, []*common.VersionedTransaction{tx}); err != nil || !fin {
+					t.Fatalf("ordinary snapshot: %v %v", fin, err)
+				}
+				c.Class("ordinary-before-mint")
+			}
+			// the mint
+			last, err := k.Node.persistStore.ReadLastConsensusSnapshot()
+			if err != nil || last == nil {
+				t.Fatalf("no last consensus snapshot: %v", err)
+			}
+			batch += uint64(rapid.IntRange(1, 3).Draw(t, "batch_step"))
+			amount := common.NewInteger(uint64(10 + mi))
+			tx := common.NewTransactionV5(common.XINAssetId)
+			tx.AddUniversalMintInput(batch, amount)
+			tx.AddScriptOutput([]*common.Address{&net.Accts[0]}, common.NewThresholdScript(1), amount, vpKSeed("c21m-out", batch))
+			tx.References = last.Transactions
+			ver := tx.AsVersioned()
+			if err := ver.LockInputs(k.Node.persistStore, false); err != nil {
+				t.Fatalf("lock mint: %v", err)
+			}
+			if err := k.Node.persistStore.WriteTransaction(ver); err != nil {
+				t.Fatalf("persist mint: %v", err)
+			}
+			clk += uint64(rapid.IntRange(1, 400).Draw(t, "dt_ms")) * uint64(time.Millisecond)
+			chain := k.Node.getOrCreateChain(net.NodeIds[0])
+			newRound := false
+			if cache := chain.State.CacheRound; len(cache.Snapshots) > 0 {
+				start, _ := cache.Gap()
+				newRound = clk >= start+config.SnapshotRoundGap
+			}
+			s := k.NextSnapshot(0, []crypto.Hash{ver.PayloadHash()}, clk, newRound, 1)
+			k.Certify(s, 0)
+			if newRound {
+				cache, final := chain.StateCopy()
+				if _, _, _, err := chain.startNewRoundAndPersist(cache, s.References, s.Timestamp, true); err != nil {
+					t.Fatalf("round transition for the mint: %v", err)
+				}
+				_ = final
+			}
+			signers, ok := chain.verifyFinalization(s)
+			if !ok {
+				t.Fatalf("harness certificate rejected")
+			}
+			cache, final := chain.StateCopy()
+			if err := chain.AddSnapshot(final, cache, s, signers); err != nil {
+				t.Fatalf("AddSnapshot: %v", err)
+			}
+			lastMint = s
+			if mi > 0 {
+				c.Class("second-mint")
+			}
+			if mi == cutAt && cutBefore {
+				c.Class("cut-before-marker")
+				restart("cut between the mint snapshot write and its consensus marker")
+				c.Case(fmt.Sprint(nmint, mi, "before", seq), true, "cut-before-marker")
+				continue
+			}
+			if err := k.Node.reloadConsensusState(s, ver); err != nil {
+				t.Fatalf("reloadConsensusState: %v", err)
+			}
+			if mi == cutAt {
+				restart("cut after the marker write")
+				c.Case(fmt.Sprint(nmint, mi, "after", seq), false, "cut-after-marker")
+			}
 		}
 	})
 }
